@@ -150,6 +150,14 @@ fn corruptions(cx: &mut Cx, p: &RPos, rec: &str, shredder_rec: bool) -> Vec<Corr
         }
         out.push(Corruption { text: with_field(rec, 0, &format!("{}/8", pl)), want: "InvalidBoard", class: "placement:9-ranks" });
         out.push(Corruption { text: with_field(rec, 0, &format!("8/{}", pl)), want: "InvalidBoard", class: "placement:9-ranks" });
+        // a whole extra rank that carries pieces, before and after the eight good ones
+        let with_piece: Vec<&str> = ranks.iter().copied().filter(|r| r.chars().any(|c| c.is_ascii_alphabetic() && c != 'k' && c != 'K')).collect();
+        if !with_piece.is_empty() {
+            let extra = *rng.pick(&with_piece);
+            out.push(Corruption { text: with_field(rec, 0, &format!("{}/{}", pl, extra)), want: "InvalidBoard", class: "placement:9-ranks-with-pieces" });
+            out.push(Corruption { text: with_field(rec, 0, &format!("{}/{}", extra, pl)), want: "InvalidBoard", class: "placement:9-ranks-with-pieces" });
+            out.push(Corruption { text: with_field(rec, 0, &format!("{}/{}/{}", pl, extra, extra)), want: "InvalidBoard", class: "placement:10-ranks-with-pieces" });
+        }
         let mut r: Vec<String> = ranks.iter().map(|x| x.to_string()).collect();
         r[k] = String::new();
         out.push(Corruption { text: with_field(rec, 0, &r.join("/")), want: "InvalidBoard", class: "placement:empty-rank" });
@@ -169,6 +177,36 @@ fn corruptions(cx: &mut Cx, p: &RPos, rec: &str, shredder_rec: bool) -> Vec<Corr
         if cur != "-" {
             let c0 = cur.chars().next().unwrap();
             out.push(Corruption { text: with_field(rec, 2, &format!("{}{}", cur, c0)), want: "InvalidCastlingRights", class: "castling:duplicate" });
+        }
+        // two different rook letters on the same wing of one colour (Shredder): the second one cannot
+        // be a further right, whatever the rooks on the board
+        if shredder_rec {
+            for &c in &[Color::White, Color::Black] {
+                let br = rel_rank(c, 1);
+                if let Some(k) = p.king_sq(c) {
+                    if (k / 8) as i32 != br {
+                        continue;
+                    }
+                    let kf = (k % 8) as i32;
+                    for (lo, hi) in [(kf + 1, 7), (0, kf - 1)] {
+                        let rooks: Vec<i32> = (lo..=hi).filter(|&f| p.sq[idx(f, br)] == Some((c, Piece::Rook))).collect();
+                        if rooks.len() >= 2 {
+                            let mut q = p.clone();
+                            q.rights[ci(c)] = [None, None];
+                            let others = write_rights(&q, true);
+                            let others = if others == "-" { String::new() } else { others };
+                            for (a, b) in [(rooks[0], rooks[1]), (rooks[1], rooks[0])] {
+                                let l = |f: i32| -> char {
+                                    let ch = (b'a' + f as u8) as char;
+                                    if c == Color::White { ch.to_ascii_uppercase() } else { ch }
+                                };
+                                let field = if c == Color::White { format!("{}{}{}", l(a), l(b), others) } else { format!("{}{}{}", others, l(a), l(b)) };
+                                out.push(Corruption { text: with_field(rec, 2, &field), want: "InvalidCastlingRights", class: "castling:two-letters-same-wing" });
+                            }
+                        }
+                    }
+                }
+            }
         }
         // well-formed but unsupported
         for &c in &[Color::White, Color::Black] {
@@ -464,6 +502,20 @@ pub fn run(cfg: &Cfg) -> Result<Outcome, String> {
                 4 => gen::dense_fragmented_case(&mut cx.rng),
                 _ => gen::sound_random(&mut cx.rng),
             };
+            let mut p = p;
+            if cx.rng.chance(1, 4) {
+                // a second own rook on the same wing as an existing one
+                let c = if cx.rng.chance(1, 2) { Color::White } else { Color::Black };
+                let br = rel_rank(c, 1);
+                if let Some(k) = p.king_sq(c) {
+                    if (k / 8) as i32 == br {
+                        let f = cx.rng.range(0, 7) as i32;
+                        if p.sq[idx(f, br)].is_none() {
+                            p.sq[idx(f, br)] = Some((c, Piece::Rook));
+                        }
+                    }
+                }
+            }
             if p.structurally_sound().is_err() {
                 continue;
             }
